@@ -71,3 +71,10 @@ Proof. exact ka_no_false_alarm_after_reconnect. Qed.
 
 Theorem c18_error_runs_clean : forall s t, is_err (snd (kping s t)) = true -> fst (kping s t) = kclean s.
 Proof. exact error_is_clean. Qed.
+
+Theorem c18_ka_independent_of_window : forall ka s t d, deadline s = Some d -> d <= t ->
+  (exists s' o, kstep ka s (Tick t) = (s', [o]) /\ ping_time o = t /\
+     (o = ErrCollision t <-> coll s = true /\ 1 <= cpc s)) /\
+  (forall c n, c = false \/ n = 0 ->
+     snd (kstep ka (mkK (deadline s) (await s) c n) (Tick t)) = [if await s then ErrAwait t else PingReqAt t]).
+Proof. exact ka_independent_of_window. Qed.
